@@ -42,8 +42,10 @@ structure Lin where
   dt : Float
   fam : Nat := 0
 
+/-- families: 0 linear (f = c*a), 1 look-back (f = delay(g, 2dt), g = c*a), 2 direct (f = c*a and the STOCK names the
+constant: s' = f + c), 3 constant-delay (f = delay(c, 2dt)*a: the delay reads the very constant the settings change) -/
 def flowAt (m : Lin) (f : Nat → Float) (k : Nat) : Float :=
-  let x := (if m.fam == 1 then f (k - 2) else f k) * m.a
+  let x := (if m.fam == 1 || m.fam == 3 then f (k - 2) else f k) * m.a
   if x > 0.0 then x else 0.0
 
 /-! memo level: the function strings of the two families in C08's expression language.
@@ -52,22 +54,25 @@ open Bptk.C08 (Expr) in
 def bodies (m : Lin) (c0 : Float) : Nat → Expr Float := fun n =>
   match n with
   | 0 => .lit c0
-  | 1 => if m.fam == 1 then .max0 (.atStart (.ref 5) (.prev 5)) else .max0 (.bin 2 (.ref 0) (.lit m.a))
-  | 2 => .atStart (.lit m.s0) (.bin 0 (.prev 2) (.bin 2 (.lit m.dt) (.prev 1)))
+  | 1 => if m.fam == 1 then .max0 (.atStart (.ref 5) (.prev 5))
+         else if m.fam == 3 then .max0 (.bin 2 (.atStart (.ref 5) (.prev 5)) (.lit m.a))
+         else .max0 (.bin 2 (.ref 0) (.lit m.a))
+  | 2 => if m.fam == 2 then .atStart (.lit m.s0) (.bin 0 (.prev 2) (.bin 2 (.lit m.dt) (.bin 0 (.prev 1) (.prev 0))))
+         else .atStart (.lit m.s0) (.bin 0 (.prev 2) (.bin 2 (.lit m.dt) (.prev 1)))
   | 3 => .bin 0 (.bin 2 (.ref 2) (.lit m.b)) (.ref 0)
   | 4 => .bin 2 (.ref 0) (.lit m.a)
-  | _ => .atStart (.ref 4) (.prev 4)
+  | _ => if m.fam == 3 then .atStart (.ref 0) (.prev 0) else .atStart (.ref 4) (.prev 4)
 
 def fOps : Bptk.C08.Ops Float :=
   { bin := fun op x y => match op with | 0 => x + y | 1 => x - y | 2 => x * y | _ => x / y
     max0 := fun x => if x > 0.0 then x else 0.0 }
 
 def mKind : Nat → Bptk.C08.Kind := fun n => if n == 1 then .flow else if n == 2 then .stock else .other
-def mNEq (m : Lin) : Nat := if m.fam == 1 then 6 else 4
+def mNEq (m : Lin) : Nat := if m.fam == 1 || m.fam == 3 then 6 else 4
 
 def stockAt (m : Lin) (f : Nat → Float) : Nat → Float
   | 0 => m.s0
-  | k + 1 => stockAt m f k + m.dt * flowAt m f k
+  | k + 1 => stockAt m f k + m.dt * (if m.fam == 2 then flowAt m f k + f k else flowAt m f k)
 
 def linSim (m : Lin) : Sim Float Float :=
   { merge := fun _ b => b
@@ -144,7 +149,7 @@ def mkSpec (n stride : Nat) (raw : List String) : Spec String :=
 
 def mAdvance (d : DS) (ms : MSess Float) (s : Option Float) : Option (MSess Float) :=
   if ms.k > d.spec.n then some ms else      -- "Stoptime reached": nothing happens
-  mstep (finSet d.c) (mNEq d.m) mKind fOps (4 * d.spec.n + 32) d.eqs ms (match s with | some v => [(0, v)] | none => [])
+  mstep (finSet d.c) d.c.changeEquationKeepsMemo (mNEq d.m) mKind fOps (4 * d.spec.n + 32) d.eqs ms (match s with | some v => [(0, v)] | none => [])
 
 def doCall (d : DS) (cl : Call Float) : DS × String :=
   let r := call d.c (linSim d.m) d.spec d.eqs d.lazy d.st cl
@@ -154,9 +159,10 @@ def doCall (d : DS) (cl : Call Float) : DS × String :=
 
 def stepLine (d : DS) (line : String) : DS × String :=
   match line.trimAscii.toString.splitOn " " with
-  | ["cfg", a, b, f] => ({ d with c := ⟨a == "1", b == "1", f == "1", true, true⟩ }, "ok")
-  | ["cfg", a, b, f, g] => ({ d with c := ⟨a == "1", b == "1", f == "1", g == "1", true⟩ }, "ok")
-  | ["cfg", a, b, f, g, r] => ({ d with c := ⟨a == "1", b == "1", f == "1", g == "1", r == "1"⟩ }, "ok")
+  | ["cfg", a, b, f] => ({ d with c := ⟨a == "1", b == "1", f == "1", true, true, true⟩ }, "ok")
+  | ["cfg", a, b, f, g] => ({ d with c := ⟨a == "1", b == "1", f == "1", g == "1", true, true⟩ }, "ok")
+  | ["cfg", a, b, f, g, r] => ({ d with c := ⟨a == "1", b == "1", f == "1", g == "1", r == "1", true⟩ }, "ok")
+  | ["cfg", a, b, f, g, r, m] => ({ d with c := ⟨a == "1", b == "1", f == "1", g == "1", r == "1", m == "1"⟩ }, "ok")
   | ["rbegin", b, s0, c0, start, stop, dt, eqs] =>
       match parseHex b, parseHex s0, parseHex c0, parseHex start, parseHex stop, parseHex dt, parseNats eqs with
       | some b, some s0, some c0, some start, some stop, some dt, some eqs =>
@@ -180,7 +186,7 @@ def stepLine (d : DS) (line : String) : DS × String :=
       | _, _, _, _ => (d, "bad-op")
   | ["model", a, b, s0, dt, fam] =>
       match parseHex a, parseHex b, parseHex s0, parseHex dt, fam.toNat? with
-      | some a, some b, some s0, some dt, some fam => if fam ≤ 1 then ({ d with m := ⟨a, b, s0, dt, fam⟩ }, "ok") else (d, "bad-op")
+      | some a, some b, some s0, some dt, some fam => if fam ≤ 3 then ({ d with m := ⟨a, b, s0, dt, fam⟩ }, "ok") else (d, "bad-op")
       | _, _, _, _, _ => (d, "bad-op")
   | ["spec", n, stride, raw] =>
       match n.toNat?, stride.toNat? with
@@ -231,5 +237,5 @@ partial def loop (h : IO.FS.Stream) (d : DS) : IO Unit := do
   loop h d'
 
 def main : IO Unit := do
-  loop (← IO.getStdin) { c := ⟨true, true, true, true, true⟩, m := ⟨1.0, 1.0, 0.0, 1.0, 0⟩, spec := mkSpec 0 1 [], eqs := [],
+  loop (← IO.getStdin) { c := ⟨true, true, true, true, true, true⟩, m := ⟨1.0, 1.0, 0.0, 1.0, 0⟩, spec := mkSpec 0 1 [], eqs := [],
                          lazy := false, st := begin 0.0 }
